@@ -152,7 +152,7 @@ func init() {
 		}
 		cr := obs.CResp
 		if cr.BareHTTP || cr.OK() == isErr {
-			c.Fail("harness.base-not-ok", "unexpected outcome: %s", desc())
+			c.Fail("C05.outcome-changed", "the handler ended the RPC with error=%v (a disposition carried in its headers/trailers) but the client observed ok=%v\n%s", isErr, cr.OK(), desc())
 			return
 		}
 		// request headers at the backend
